@@ -206,6 +206,12 @@ def peel_floor(e: ast.AST):
             lo = kw.get("min", rest[0] if rest else None)
             hi = kw.get("max", rest[1] if len(rest) > 1 else None)
             if e.func.attr in ("clamp", "clip") and lo is None:
+                # an upper bound `finfo(dtype).max / D` on a quotient `x / D` only binds where D * scale would not be representable:
+                # it does not change the scale of any row whose dequantized extreme is finite (the repair of C16.R8)
+                if hi is not None and isinstance(inner, ast.BinOp) and isinstance(inner.op, ast.Div) and isinstance(hi, ast.BinOp) and isinstance(hi.op, ast.Div) \
+                        and U(hi.right) == U(inner.right) and ("finfo(" in U(hi.left) or "dtype_info(" in U(hi.left)) and U(hi.left).endswith(".max"):
+                    e = inner
+                    continue
                 return e, floors
             floors.append(U(lo) if lo is not None else "?")
             if hi is not None:
